@@ -1,5 +1,6 @@
 import NitroVerif.Proto
 import NitroVerif.Drv.Str
+import NitroVerif.Drv.Fmt
 
 /-!
 `nvdriver model`  : one case per line on stdin, the model's answer per line on stdout.
@@ -11,6 +12,7 @@ open NitroVerif
 def modelLine (line : String) : String :=
   match Proto.fields line with
   | "str" :: rest => Drv.Str.model rest
+  | "fmt" :: rest => Drv.Fmt.model rest
   | _ => "bad-op"
 
 def judgeLine (line : String) : String :=
@@ -18,6 +20,7 @@ def judgeLine (line : String) : String :=
   | [c, ans] =>
     match Proto.fields c with
     | "str" :: rest => Drv.Str.judge rest ans
+    | "fmt" :: rest => Drv.Fmt.judge rest ans
     | _ => "bad-op"
   | _ => "bad-op"
 
